@@ -358,23 +358,41 @@ template <class VT, class X> static typename std::enable_if<!std::is_enum<VT>::v
     return "\n".join(L)
 
 
+WRITE_FN = r"""
+// AL == 0: MakeFooView over an exact-size heap buffer; AL in {2,4,8}: MakeAlignedFooView<unsigned char, AL>
+// over 16-byte aligned storage, which instantiates the aligned MemoryAccessor read/write fast paths
+template <int AL> struct MakeV {
+  static auto make(unsigned char *p, std::size_t n) -> decltype(NS::MakeAlignedFooView<unsigned char, AL>(p, n)) { return NS::MakeAlignedFooView<unsigned char, AL>(p, n); }
+};
+template <> struct MakeV<0> {
+  static auto make(unsigned char *p, std::size_t n) -> decltype(NS::MakeFooView(p, n)) { return NS::MakeFooView(p, n); }
+};
+template <int AL> static void run_writes(const std::vector<std::string> &tok) {
+  // <cmd> <hex> <n> (<target> <value>)*n : a sequence of writes on one buffer
+  std::vector<unsigned char> b = unhex(tok[1]);
+  unsigned char *buf;
+  if (AL == 0) { buf = new unsigned char[b.size()]; }
+  else { std::size_t cap = ((b.size() + 15) / 16 + 1) * 16; buf = static_cast<unsigned char *>(aligned_alloc(16, cap)); }
+  if (!b.empty()) std::memcpy(buf, b.data(), b.size());
+  int n = std::stoi(tok[2]);
+  for (int i = 0; i < n; ++i) {
+    auto v = MakeV<AL>::make(buf, b.size());
+    int ti = std::stoi(tok[3 + 2 * i]);
+    write_target(v, ti, tok[4 + 2 * i]);
+    P("buf", tohex(buf, b.size()));
+    auto v2 = MakeV<AL>::make(buf, b.size());
+    read_target(v2, ti);
+    std::printf("STEP\n");
+  }
+  if (AL == 0) delete[] buf; else free(buf);
+}
+"""
+
 MAIN_EXTRA = r"""
-    if (tok[0] == "W") {
-      // W <hex> <n> (<target> <value>)*n : a sequence of writes on one buffer
-      std::vector<unsigned char> b = unhex(tok[1]);
-      unsigned char *buf = new unsigned char[b.size()]; if (!b.empty()) std::memcpy(buf, b.data(), b.size());
-      int n = std::stoi(tok[2]);
-      for (int i = 0; i < n; ++i) {
-        auto v = NS::MakeFooView(buf, b.size());
-        int ti = std::stoi(tok[3 + 2 * i]);
-        write_target(v, ti, tok[4 + 2 * i]);
-        P("buf", tohex(buf, b.size()));
-        auto v2 = NS::MakeFooView(buf, b.size());
-        read_target(v2, ti);
-        std::printf("STEP\n");
-      }
-      delete[] buf;
-    }
+    if (tok[0] == "W") run_writes<0>(tok);
+    if (tok[0] == "X2") run_writes<2>(tok);
+    if (tok[0] == "X4") run_writes<4>(tok);
+    if (tok[0] == "X8") run_writes<8>(tok);
 """
 
 
@@ -395,7 +413,7 @@ def build_case(case_seed, nbuf, seq_p):
         if f.is_virtual:
             expected_writable.add(f.name)
     gen = D.DriverGen({"": m})
-    src = gen.source("m.emb.h", extra_fns=driver_extra(m, targets), main_extra=MAIN_EXTRA.replace("NS", D.cpp_ns(m)))
+    src = gen.source("m.emb.h", extra_fns=driver_extra(m, targets) + WRITE_FN.replace("NS", D.cpp_ns(m)), main_extra=MAIN_EXTRA)
     I = RI.Interp({"": m})
     script = []
     expect = []
@@ -419,7 +437,8 @@ def build_case(case_seed, nbuf, seq_p):
             exp_steps.append(res)
             cur = res["buf"]
             seq.append((ti, v))
-        script.append("W %s %d %s" % (buf.hex() or "-", len(seq), " ".join("%d %d" % (ti, v) for ti, v in seq)))
+        cmd = rnd.choice(["W", "W", "W", "X2", "X4", "X8"])
+        script.append("%s %s %d %s" % (cmd, buf.hex() or "-", len(seq), " ".join("%d %d" % (ti, v) for ti, v in seq)))
         expect.append(exp_steps)
     return {"rejected": False, "text": text, "header": r.header, "driver": src, "script": "\n".join(script) + "\n", "expect": expect, "module": m, "targets": targets, "writable": sorted(writable), "virtuals": sorted(expected_writable)}
 
